@@ -61,6 +61,17 @@ CHECKS = {
             "Trusted: TLC; the fingerprint model separates all inputs in scope (ProductSeparates invariant); shuffles are logged "
             "facts checked to be shuffles of the region; func = predict.",
             "DESIGN.md §5 C08"),
+    "C02": (["DinucWalk", "ShuffleOps", "Shuffle_Trace"],
+            "step-shaped TLA+ model of the Euler walk (DinucWalk.tla) model-checked with TLC over every permutation outcome "
+            "(safety + liveness); every behaviour replayed into _fast_shuffle.py_func with a scripted permutation source; public "
+            "calls validated against Shuffle_Trace (relations + determinism memo)",
+            "TLC visits every reachable state of the walk for every sequence of the scope and every outcome of the internal "
+            "permutations (enumerated, not sampled): never stranded, every transition consumed, dinucleotide multiset preserved, "
+            "terminates; the KeepLast=FALSE mutant must produce the stranded counter-example. Each complete behaviour is one "
+            "implementation test; recorded public calls are checked for composition, flanks, validity, digests and determinism.",
+            "Trusted: TLC; py_func is the body numba compiles (compiled path covered by the trace lane); regions for "
+            "dinucleotide_shuffle are 'either' unless n=1 and length >= 3.",
+            "DESIGN.md §5 C02"),
 }
 
 ALL = ["C%02d" % i for i in range(1, 21)]
